@@ -42,14 +42,14 @@ func baseScript(role, chain string) []string {
 var disturbances = map[bool][]string{
 	true: { // taker
 		"timeout", "cancel", "cancel from=third", "coop", "txmsg", "txmsg from=third", "confirm", "confirm err",
-		"blocks btc 1", "blocks btc 503", "blocks btc 504", "blocks lbtc 59", "blocks lbtc 60", "claimpaid force", "feepaid force", "csv",
+		"blocks btc 1", "blocks btc 503", "blocks btc 504", "blocks lbtc 59", "blocks lbtc 60", "rewind lbtc 3", "rewind btc 2", "claimpaid force", "feepaid force", "csv",
 		"fault send down", "fault height.btc down", "fault height.lbtc down", "fault preimage down", "fault decode down",
 		"fault outputscript down", "fault spendable down", "fault probe unsuccessful",
 		"payout fail", "payout pending", "settle success", "settle fail", "settle success later", "settle fail later", "agree", "agree badpubkey",
 	},
 	false: { // maker
 		"timeout", "cancel", "cancel from=third", "coop", "coop badkey", "coop wrongkey", "coop from=third", "csv", "claimpaid", "feepaid",
-		"blocks btc 1008", "blocks lbtc 10080", "txmsg", "agree", "agree badpubkey", "agree premium=2000000", "confirm",
+		"blocks btc 1008", "blocks lbtc 10080", "rewind btc 2", "txmsg", "agree", "agree badpubkey", "agree premium=2000000", "confirm",
 		"fault send down", "fault opening down", "fault height.btc down", "fault height.lbtc down", "fault getpayreq down", "fault csv down", "fault coop down",
 		"fault outputscript down", "fault balance down", "fault openingfee down", "fault label down",
 	},
